@@ -145,17 +145,19 @@ def candidates_structure(desc):
                 yield d
 
 
-def shrink_structure(sh, desc):
+def shrink_structure(sh, desc, res0=None):
+    """Returns (description, the result of executing exactly that description)."""
     improved = True
+    best = res0
     while improved and time.time() < sh.deadline:
         improved = False
         for cand in candidates_structure(desc):
             res = sh.fails(cand)
             if res is not None:
-                desc = cand
+                desc, best = cand, res
                 improved = True
                 break
-    return desc
+    return desc, best
 
 
 def shrink_tape(sh, desc, res):
@@ -200,8 +202,9 @@ def minimise(modname, prop, desc, violation, budget_s=120.0):
         res0 = sh.fails(desc)
         if res0 is None:
             return desc, None, {"tries": sh.tries, "reproduced": False}
-        d = shrink_structure(sh, desc)
-        res = sh.fails(d) or res0
+        # (the result kept next to a description is always the result of executing that very description: the
+        #  digest written into the replay file must be the one a replay computes)
+        d, res = shrink_structure(sh, desc, res0)
         d2, res2 = shrink_tape(sh, d, res)
         return d2, res2, {"tries": sh.tries, "reproduced": True}
     finally:
